@@ -191,3 +191,36 @@ def byte_mutations(r, data, n_edit, n_splice, all_truncations):
         else:
             k = r.randrange(0, n)
             yield "splice-move", data[:i] + data[j:][:k] + data[i:j] + data[j:][k:]
+
+
+# ---- wide inputs: one element kind repeated n times (work must stay proportional to the input size) ----------------
+def _env(members, man_extra=None, common=None):
+    import hashlib
+    man = {1: 1, 2: 1, 3: enc(common if common is not None else {2: [[b"M"]]})}
+    man.update(man_extra or {})
+    manb = enc(man)
+    return enc(Tag(107, Pairs([(2, enc([enc([-16, hashlib.sha256(enc(manb)).digest()])])), (3, manb)] + members)))
+
+
+def _tiny_envelope(i):
+    return _env([], {2: i})
+
+
+WIDE_FAMILIES = {
+    "integrated-payloads": lambda n: _env([(f"#p{i}", b"\x01\x02") for i in range(n)]),
+    "integrated-dependencies": lambda n: _env([(f"#d{i}", _tiny_envelope(i)) for i in range(n)]),
+    "commands": lambda n: _env([], {7: enc([12, 0] * n)}),
+    "components": lambda n: _env([], None, {2: [[b"M", enc(i)] for i in range(n)]}),
+    "dependencies-metadata": lambda n: _env([], None, {2: [[b"M", enc(i)] for i in range(n)], 1: {i: {} for i in range(n)}}),
+    "text-languages": lambda n: _env([(23, enc({f"l{i}": {1: "x"} for i in range(n)}))], {23: [-16, b"\0" * 32]}),
+    "authentication-blocks": lambda n: (lambda man: enc(Tag(107, Pairs([
+        (2, enc([enc([-16, b"\0" * 32])] + [enc(Tag(18, [enc({1: -7}), {}, None, b"\1\2"]))] * n)), (3, man)]))))(
+        enc({1: 1, 2: 1, 3: enc({})})),
+    "recipients": lambda n: _env([], {7: enc([20, {19: enc(Tag(96, [enc({1: 3}), {}, None,
+                                                            [[b"", {1: -6}, None]] * n]))}])}),
+    "try-each-alternatives": lambda n: _env([], {7: enc([15, [enc([12, 0])] * n])}),
+    "component-index-list": lambda n: _env([], {7: enc([12, list(range(n))])}),
+    "version-fields": lambda n: _env([], {6: enc(list(range(n)))}),
+    "component-id-parts": lambda n: _env([], {5: [enc(i) for i in range(n)]}),
+    "parameters-repeated": lambda n: _env([], {7: enc([20, {21: "u"}] * n)}),
+}
